@@ -128,7 +128,7 @@ Definition run_roundtrip : P (list Z) :=
   let valid := forallb (valid_tx tbl) txs in
   let '(tab, tbl1) := write_table tbl txs in
   let rd := read_table tbl1 (fst tab) (snd tab) in
-  pret (obool valid :: obool (K_memo_untrimmed txs || K_default_split txs) :: flat_map (fun t => oaff (x_af t)) txs
+  pret (obool valid :: flat_map (fun t => oaff (x_af t)) txs
           ++ otable tab
           ++ match rd with
              | Ok (txs', tbl2) =>
